@@ -154,6 +154,12 @@ fn can_be_ignored<ResT>(result: &Result<ResT, RequestError>) -> bool {
     }
 }
 
+/// Verification hook: pass-through to the private `can_be_ignored`.
+#[cfg(scylla_verif)]
+pub(crate) fn verif_can_be_ignored<ResT>(result: &Result<ResT, RequestError>) -> bool {
+    can_be_ignored(result)
+}
+
 const EMPTY_PLAN_ERROR: RequestError = RequestError::EmptyPlan;
 
 pub(crate) async fn execute<QueryFut, T>(
